@@ -384,6 +384,8 @@ def main(argv=None):
         examples = ns.examples if ns.examples is not None else budget["examples"]
         per = -(-examples // nshards)
         wall_budget = budget.get("wall_budget", 3600)
+        if os.environ.get("VERIF_WALL_BUDGET"):       # development aid: exercise a tier's code paths within a shorter budget
+            wall_budget = min(wall_budget, int(os.environ["VERIF_WALL_BUDGET"]))
         jobs = [(prop_id, ns.tier, seed, s, nshards, per, wall_budget) for s in range(nshards)]
         if nshards == 1:
             results = [run_shard(jobs[0])]
@@ -405,6 +407,8 @@ def main(argv=None):
         fz = getattr(prop, "FUZZ", {}).get(ns.tier)
         if fz and os.environ.get("VERIF_NO_FUZZ", "") != "1":
             from . import fuzz
+            if os.environ.get("VERIF_FUZZ_WALL"):
+                fz = dict(fz, wall_s=min(fz["wall_s"], int(os.environ["VERIF_FUZZ_WALL"])))
             try:
                 fviol, fcov = fuzz.drive(prop, ns.tier, seed, **fz)
                 stats.violations.extend(fviol)
